@@ -191,6 +191,10 @@ def selftest():
                     assert r.to_ratfun() == R, (op, a, b, r, R)
                     assert (r == a) == (R == A) and (r == 0) == (R == 0), (op, a, b)
     assert x ** 2 == x * x and (x - x).is_zero() and x / x == 1 and x != y
+    for tag in PTS_TAGS:            # point set: every coefficient is defined and non-zero
+        assert all(a is not None and a != 0 for a in Pts.of_tag(tag).v), tag
+    h = Pts.of_tag("n//2")
+    assert -h != Pts(PTS_TAGS["n//2"](-p) for p in POINTS) and h - h == 0 and h / h == 1
 
 # }}}
 
@@ -343,6 +347,150 @@ class RefAlgebra:
 # }}}
 
 
+# {{{ Pts: values of an opaque integer-valued expression in n at fixed integer points
+
+POINTS = (5, -7, 4, -2, 7)      # no coefficient below vanishes at any of them
+PTS_FUNCTIONS = {"f": lambda t: t * t + 1}          # meaning of the function symbol f
+PTS_TAGS = {                    # coefficient tag -> its plain-Python meaning
+    "n//2": lambda n: n // 2,
+    "n%3": lambda n: n % 3,
+    "(n+1)//3": lambda n: (n + 1) // 3,
+    "n/3": lambda n: Fraction(n, 3),
+    "n**2": lambda n: n ** 2,
+    "f(n)": lambda n: PTS_FUNCTIONS["f"](n),
+    "n+1": lambda n: n + 1,
+    "2*n": lambda n: 2 * n,
+}
+
+
+class Pts:
+    """Tuple of exact values at POINTS (None = undefined there, e.g. division by zero);
+    arithmetic and equality are pointwise."""
+    __slots__ = ("v",)
+    __hash__ = None
+
+    def __init__(self, v):
+        self.v = tuple(v)
+
+    @staticmethod
+    def lift(x):
+        if isinstance(x, Pts):
+            return x
+        if isinstance(x, (int, Fraction)) and not isinstance(x, bool):
+            return Pts((x,) * len(POINTS))
+        return None
+
+    @staticmethod
+    def of_tag(tag):
+        return Pts(PTS_TAGS[tag](p) for p in POINTS)
+
+    def _bin(self, o, fn):
+        o = Pts.lift(o)
+        if o is None:
+            return NotImplemented
+        out = []
+        for a, b in zip(self.v, o.v):
+            if a is None or b is None:
+                out.append(None)
+                continue
+            try:
+                out.append(fn(a, b))
+            except ZeroDivisionError:
+                out.append(None)
+        return Pts(out)
+
+    def __add__(self, o):
+        return self._bin(o, lambda a, b: a + b)
+
+    __radd__ = __add__
+
+    def __sub__(self, o):
+        return self._bin(o, lambda a, b: a - b)
+
+    def __rsub__(self, o):
+        return self._bin(o, lambda a, b: b - a)
+
+    def __mul__(self, o):
+        return self._bin(o, lambda a, b: a * b)
+
+    __rmul__ = __mul__
+
+    def __truediv__(self, o):
+        return self._bin(o, lambda a, b: Fraction(a) / b)
+
+    def __rtruediv__(self, o):
+        return self._bin(o, lambda a, b: Fraction(b) / a)
+
+    def __neg__(self):
+        return Pts(None if a is None else -a for a in self.v)
+
+    def __eq__(self, o):
+        o = Pts.lift(o)
+        return o is not None and self.v == o.v
+
+    def __ne__(self, o):
+        return not self.__eq__(o)
+
+    def partial_zero(self):
+        """Zero or undefined at some points but not identically zero."""
+        z = [a is None or a == 0 for a in self.v]
+        return any(z) and not all(a == 0 for a in self.v)
+
+    def __repr__(self):
+        return "pts(" + ", ".join("?" if a is None else str(a) for a in self.v) + ")"
+
+
+def _eval_at(e, n):
+    """Value of the coefficient expression *e* at the integer point n (own evaluator)."""
+    if not type(e).__module__.startswith("pymbolic"):
+        return coef_value(e, False)[0]
+    name = type(e).__name__
+    if name == "Variable":
+        if e.name != "n":
+            raise Uninterpretable(f"variable {e.name} in a point-evaluated coefficient")
+        return n
+    if name == "Sum":
+        return sum(_eval_at(ch, n) for ch in e.children)
+    if name == "Product":
+        tot = 1
+        for ch in e.children:
+            tot = tot * _eval_at(ch, n)
+        return tot
+    if name == "Quotient":
+        return Fraction(_eval_at(e.numerator, n)) / _eval_at(e.denominator, n)
+    if name == "FloorDiv":
+        return _eval_at(e.numerator, n) // _eval_at(e.denominator, n)
+    if name == "Remainder":
+        return _eval_at(e.numerator, n) % _eval_at(e.denominator, n)
+    if name == "Power":
+        ex = _eval_at(e.exponent, n)
+        if ex != int(ex):
+            raise Uninterpretable(f"non-integer exponent in {e!r}")
+        b = _eval_at(e.base, n)
+        return Fraction(b) ** int(ex) if ex < 0 else b ** int(ex)
+    if name == "Call":
+        fn = e.function
+        if type(fn).__name__ != "Variable" or fn.name not in PTS_FUNCTIONS \
+                or len(e.parameters) != 1:
+            raise Uninterpretable(f"call {e!r}")
+        return PTS_FUNCTIONS[fn.name](_eval_at(e.parameters[0], n))
+    raise Uninterpretable(f"coefficient expression node {name}: {e!r}")
+
+
+def _pts_value(e):
+    out = []
+    for p in POINTS:
+        try:
+            out.append(_eval_at(e, p))
+        except ZeroDivisionError:
+            out.append(None)
+    if all(a is None for a in out):
+        raise ZeroDivisionError("undefined at every point")
+    return Pts(out)
+
+# }}}
+
+
 # {{{ reading the implementation's coefficients
 
 class Uninterpretable(Exception):
@@ -350,7 +498,8 @@ class Uninterpretable(Exception):
 
 
 def coef_value(c, symbolic):
-    """-> (value, inexact).  value is an int / Fraction, or a RF when *symbolic*."""
+    """-> (value, inexact).  *symbolic*: False -> int / Fraction; "pts" -> Pts (values at
+    POINTS); any other true value -> RF (rational function in x, y)."""
     inexact = False
     if isinstance(c, (bool, np.bool_)):
         raise Uninterpretable(f"boolean coefficient {c!r}")
@@ -367,9 +516,13 @@ def coef_value(c, symbolic):
     elif type(c).__module__.startswith("pymbolic"):
         if not symbolic:
             raise Uninterpretable(f"expression coefficient {c!r} in a numeric case")
+        if symbolic == "pts":
+            return _pts_value(c), False
         return _expr_value(c), False
     else:
         raise Uninterpretable(f"coefficient of type {type(c).__name__}: {c!r}")
+    if symbolic == "pts":
+        return Pts.lift(v), inexact
     if symbolic:
         return RF.lift(v), inexact
     return v, inexact
